@@ -75,6 +75,9 @@ type Look struct {
 type Req struct {
 	Kind  string    `json:"kind"` // "range" | "instant"
 	Ms    []Matcher `json:"ms"`   // ms[0] is __name__="req<i>"
+	// a second selector on the same metric: the query is `sel1 or sel2`, two Selects on the request's ONE querier.  Each
+	// selector then carries a marker matcher zz!="s1" / zz!="s2" (no series has the label) by which the driver knows them
+	Ms2 []Matcher `json:"ms2,omitempty"`
 	Start int64     `json:"start"`
 	End   int64     `json:"end"`
 	Step  int64     `json:"step"`
@@ -290,8 +293,29 @@ func promMatchers(ms []Matcher) []*labels.Matcher {
 }
 
 // the stored series of the request that satisfy every matcher: Prometheus' meaning (an absent label is "")
-func selected(rq *Req) []Series {
-	pms := promMatchers(rq.Ms)
+func selected(rq *Req) []Series { return selectedBy(rq, rq.Ms) }
+
+// every stored series some selector of the request selects
+func selectedAny(rq *Req) []Series {
+	res := selectedBy(rq, rq.Ms)
+	if rq.Ms2 == nil {
+		return res
+	}
+	have := map[uint64]bool{}
+	for _, s := range res {
+		have[s.Fp] = true
+	}
+	for _, s := range selectedBy(rq, rq.Ms2) {
+		if !have[s.Fp] {
+			res = append(res, s)
+		}
+	}
+	sort.Slice(res, func(i, j int) bool { return res[i].Fp < res[j].Fp })
+	return res
+}
+
+func selectedBy(rq *Req, ms []Matcher) []Series {
+	pms := promMatchers(ms)
 	var res []Series
 	for _, s := range rq.DB {
 		ok := true
@@ -412,7 +436,11 @@ func (*conn) QueryContext(ctx context.Context, q string, args []driver.NamedValu
 	}
 	rq := &b.c.Reqs[owner]
 	rows := &rowsT{ctx: ctx, cols: 3, failAt: -1}
-	for _, s := range selected(rq) {
+	ms := rq.Ms
+	if rq.Ms2 != nil && strings.Contains(q, "'s2'") {
+		ms = rq.Ms2
+	}
+	for _, s := range selectedBy(rq, ms) {
 		for _, sm := range s.Samples {
 			rows.rows = append(rows.rows, []driver.Value{s.Fp, float64(sm[1]), sm[0]})
 		}
@@ -511,6 +539,13 @@ func get(ctx context.Context, i int, url string) answer {
 	return answer{status: resp.StatusCode, body: string(body), err: err}
 }
 
+func queryText(rq *Req) string {
+	if rq.Ms2 != nil {
+		return selectorText(rq.Ms) + " or " + selectorText(rq.Ms2)
+	}
+	return selectorText(rq.Ms)
+}
+
 func selectorText(ms []Matcher) string {
 	var parts []string
 	for _, m := range ms[1:] {
@@ -531,7 +566,7 @@ func urlOf(rq *Req) string {
 // window is shorter than the look-back: the value at t is the latest sample at or before t)
 func want(rq *Req) []OutSeries {
 	res := []OutSeries{}
-	for _, s := range selected(rq) {
+	for _, s := range selectedAny(rq) {
 		o := OutSeries{Labels: append([][2]string(nil), s.Labels...)}
 		sort.Slice(o.Labels, func(i, j int) bool { return o.Labels[i][0] < o.Labels[j][0] })
 		at := func(t int64) {
@@ -632,7 +667,7 @@ func runOverlap(c *Case) {
 	for i := range c.Reqs {
 		rq := &c.Reqs[i]
 		rq.Looks, rq.Got, rq.Status, rq.ErrMsg, rq.Cancelled = []Look{}, []OutSeries{}, 0, "", false
-		rq.Query = selectorText(rq.Ms)
+		rq.Query = queryText(rq)
 		rq.Want = want(rq)
 		rq.WantErr = rq.Fail != nil && failReached(rq)
 		b.rs = append(b.rs, &reqState{idx: i, parks: rq.Parks, reached: make(chan string, 1), resume: make(chan struct{}), ans: make(chan answer, 1),
@@ -819,6 +854,9 @@ func classify(c *Case) {
 		if c.Reqs[i].Cancelled {
 			addClass(c, "client-went-away")
 		}
+		if c.Reqs[i].Ms2 != nil {
+			addClass(c, "two-selectors-on-one-querier")
+		}
 		if c.Reqs[i].WantErr {
 			addClass(c, "stream-fails/"+c.Reqs[i].Fail.Stmt)
 		}
@@ -878,6 +916,14 @@ func genReq(r *rand.Rand, i int) Req {
 		}
 		rq.DB = append(rq.DB, s)
 	}
+	two := r.Intn(4) == 0
+	if two {
+		rq.Ms2 = []Matcher{rq.Ms[0], {"zz", "!=", "s2"}}
+		for k := r.Intn(3); k > 0; k-- {
+			rq.Ms2 = append(rq.Ms2, pool[r.Intn(len(pool))])
+		}
+		rq.Ms = append(rq.Ms, Matcher{"zz", "!=", "s1"})
+	}
 	sel := selected(&rq)
 	nrows, nlab := 0, 0
 	for _, s := range sel {
@@ -898,7 +944,7 @@ func genReq(r *rand.Rand, i int) Req {
 	if len(rq.Parks) > 0 && r.Intn(5) == 0 {
 		rq.CancelAfter = 1 + r.Intn(len(rq.Parks))
 	}
-	if r.Intn(6) == 0 && nrows > 0 {
+	if r.Intn(6) == 0 && nrows > 0 && !two {
 		if r.Intn(2) == 0 {
 			rq.Fail = &Fail{"samples", r.Intn(nrows + 1)}
 		} else {
